@@ -663,9 +663,14 @@ def w_pagination(failure, tier):
     docs = []
     for i in range(14):
         body = ' '.join(['alpha'] * (1 + i % 3) + ['filler'] * (i % 4))
-        docs.append({"_id": "d%02d" % i, "body": body, "rank": i % 3})
-    add = {"numeric_fields": [{"name": "rank", "i64": True, "fast": True, "stored": True}]}
-    plans = [[], [("_score", "desc")], [("_score", "asc")], [("rank", "asc"), ("_score", "desc")], [("rank", "desc")], [("_score", "asc"), ("rank", "asc")]]
+        # price: doubles handed to the engine as numbers in memory (by bit pattern), among them values whose decimal text
+        # does not parse back to the same double without exact float parsing
+        import struct
+        docs.append({"_id": "d%02d" % i, "body": body, "rank": i % 3,
+                     "price": {"$f64_bits": struct.unpack('<Q', struct.pack('<d', 102.12384227413311 + (i * 7) % 5 + (i // 5) * 0.25))[0]}})
+    add = {"numeric_fields": [{"name": "rank", "i64": True, "fast": True, "stored": True}, {"name": "price", "i64": False, "fast": True, "stored": True}]}
+    plans = [[], [("_score", "desc")], [("_score", "asc")], [("rank", "asc"), ("_score", "desc")], [("rank", "desc")], [("_score", "asc"), ("rank", "asc")],
+             [("price", "asc")], [("rank", "asc"), ("price", "desc")]]
     batches = [docs[:5], docs[5:10], docs[10:]]
     def sort(p):
         return [{"field": f, "order": o} for (f, o) in p]
@@ -847,6 +852,10 @@ def w_history(failure, tier):
         [["add", "a", 1], ["add", "a", 2], ["commit"], ["add", "a", 3], ["del", "a"], ["add", "a", 4], ["restart"], ["commit"]],
         [["add", "a", 1], ["add", "b", 1], ["commit"], ["del", "b"], ["commit"], ["del", "a"], ["add", "b", 2], ["rollback"], ["add", "c", 1]],
         [["add", "a", 1], ["commit"], ["add", "b", 1], ["commit"], ["compact"], ["del", "a"], ["add", "b", 2], ["commit"]],
+        # tear = the process dies in the middle of an append (half a record is left at the end of the log) and the index is reopened
+        [["add", "a", 1], ["tear"], ["add", "b", 2], ["restart"]],
+        [["add", "a", 1], ["commit"], ["tear"], ["del", "a"], ["add", "c", 1], ["restart"], ["commit"]],
+        [["tear"], ["add", "a", 1], ["restart"], ["add", "b", 1], ["tear"], ["add", "c", 1], ["restart"]],
     ]
     cases += fixed
     for _ in range(40 if tier == 'quick' else 300):
@@ -862,8 +871,10 @@ def w_history(failure, tier):
                 ops.append(["commit"])
             elif c < 0.9:
                 ops.append(["rollback"])
-            else:
+            elif c < 0.96:
                 ops.append(["restart"])
+            else:
+                ops.append(["tear"])
         cases.append(ops)
 
     def model(ops):
@@ -883,7 +894,8 @@ def w_history(failure, tier):
                 pending = []
             elif op[0] == 'rollback':
                 pending = []
-            # restart: every queued operation was logged (in-memory storage keeps what was written), so it is recovered
+            # restart / tear: every queued operation was logged (in-memory storage keeps what was written), so it is recovered;
+            # the half record a tear leaves behind is not an operation
         for q in pending:       # the driver ends with a final commit
             if q[0] == 'add':
                 committed[q[1]] = q[2]
@@ -899,6 +911,8 @@ def w_history(failure, tier):
                 jops.append(["add", {"_id": op[1], "body": "v%d" % op[2]}])
             elif op[0] == 'del':
                 jops.append(["del", op[1]])
+            elif op[0] == 'tear':
+                jops.append(["tear", 6])
             else:
                 jops.append([op[0]])
         ins.append(_json.dumps({"ops": jops}).encode())
@@ -912,7 +926,7 @@ def w_history(failure, tier):
         if got != want:
             return dict(found=True, cmd='%s history <<< hex(json)' % BIN, input='history %s then a final commit (restart = process death and reopen)' % ops,
                         observed='live documents %s %s' % (got, out.get('log') or ''), expected='%s (one copy of each id whose last committed operation was an add, that version)' % want)
-    return dict(found=False, note='writer histories: %d histories of add/delete/commit/rollback/restart over 4 ids agree with the dictionary model' % len(cases))
+    return dict(found=False, note='writer histories: %d histories of add/delete/commit/rollback/restart/torn append over 4 ids agree with the dictionary model' % len(cases))
 
 
 # ---------------------------------------------------------------- U19 scripts
@@ -1043,6 +1057,35 @@ def w_rescore(failure, tier):
                             observed='hits %s' % [(d, round(sc, 4)) for (d, sc) in got],
                             expected='%s (window combined and re-sorted, min_score rejections dropped, non-matching window hits and the tail untouched)' % [(d, round(sc, 4)) for (d, sc) in want])
             n += 1
+    # the page size must not change what is rescored: a request with a small limit returns the first `limit` hits of the same
+    # request with a large one (the window is counted in the initial ranking of ALL segments, rejected hits are replaced from
+    # behind).  The initial score is the `rank` field, so the initial ranking is known.
+    radd = {"numeric_fields": [{"name": "rank", "i64": False, "fast": True, "stored": True}]}
+    def ranked(q):
+        return {"type": "function_score", "query": q, "functions": [{"type": "field_value_factor", "field": "rank", "factor": 1.0}], "boost_mode": "replace"}
+    seg_a = [{"_id": "a%d" % k, "body": "alpha", "rank": 0.9 - 0.1 * k} for k in range(4)]
+    seg_b = [{"_id": "b%d" % k, "body": "alpha magic" if k == 1 else "alpha", "rank": 0.5 - 0.1 * k} for k in range(3)]
+    one = [{"_id": "d%d" % k, "body": "alpha magic" if k == 3 else "alpha", "rank": 0.9 - 0.1 * k} for k in range(5)]
+    magic = {"type": "term", "field": "body", "value": "magic"}
+    reject = {"type": "function_score", "query": {"type": "match_all"}, "functions": [{"type": "field_value_factor", "field": "rank", "factor": 1.0}],
+              "boost_mode": "replace", "min_score": 5.0}
+    for (what, batches2, w, rq) in (("d0..d4 ranked 0.9..0.5 in one segment, only d3 contains magic", [one], 4, magic),
+                                   ("a0..a3 ranked 0.9..0.6 in one segment, b0..b2 ranked 0.5..0.3 in another, only b1 contains magic", [seg_a, seg_b], 5, magic),
+                                   ("d0..d4 ranked 0.9..0.5 in one segment, rescore query rejects every hit (min_score)", [one], 2, reject)):
+        big = dict(REQ_BASE, query=ranked({"type": "term", "field": "body", "value": "alpha"}), limit=10,
+                   rescore={"window_size": w, "query": rq, "score_mode": "total"})
+        small = dict(big, limit=2)
+        out, err = drive_search({"schema": None, "schema_add": radd, "batches": batches2, "requests": [big, small]})
+        if out is None or any('ok' not in o for o in out):
+            return dict(found=False, note='search driver failed: %s' % (err or str(out)[:200]))
+        ref = [(h['doc_id'], round(h['score'], 4)) for h in out[0]['ok']['hits']]
+        got = [(h['doc_id'], round(h['score'], 4)) for h in out[1]['ok']['hits']]
+        n += 1
+        if got != ref[:2] or (len(ref) > 2 and not out[1]['ok'].get('next_cursor')):
+            return dict(found=True, cmd='%s search <<< hex(json)' % BIN,
+                        input='%s; initial score = rank; limit 2, rescore window_size %d score_mode total' % (what, w),
+                        observed='hits %s, next_cursor %s' % (got, 'present' if out[1]['ok'].get('next_cursor') else 'absent'),
+                        expected='%s and a cursor: the first 2 hits of the same request with limit 10' % ref[:2])
     # a window hit rejected by the rescore query: the hits behind the window were never rescored and keep their order
     ddocs = [{"_id": x, "body": "rust" + " filler" * i, "lang": x.lower()} for i, x in enumerate("ABCDE")]
     dadd = {"keyword_fields": [{"name": "lang", "stored": True, "indexed": True, "fast": True}]}
@@ -1556,6 +1599,25 @@ def w_completion(failure, tier):
                 return dict(found=True, cmd='%s search <<< hex(json)' % BIN,
                             input='%d documents over %d terms pre00.. ; fuzzy completion on body, prefix "pre00", max_edits 1, max_expansions 20, size 8; one segment against %d segments' % (len(docs), nterms, len(batches)),
                             observed='%d segments: %s' % (len(batches), got), expected='%s (the single-segment answer)' % ref)
+    # two terms at edit distance 2 (weight 1/3, not exact in f32) with the same document count: score and order must not
+    # depend on how the documents are spread over segments
+    d2 = [{"_id": "e%02d" % i, "body": b} for i, b in enumerate(["abcxy"] * 2 + ["abcxy abcaa"] * 7 + ["abcaa"] * 2)]
+    freq = dict(REQ_BASE, query={"type": "match_all"}, limit=1,
+                suggest={"s": {"type": "completion", "field": "body", "prefix": "abcde", "size": 1,
+                               "fuzzy": {"max_edits": 2, "prefix_length": 1, "max_expansions": 20, "min_length": 2}}})
+    ref = None
+    for batches in ([d2], [d2[:2], d2[2:]], [d2[:4], d2[4:8], d2[8:]], [[d] for d in d2]):
+        out, err = drive_search({"schema": None, "batches": batches, "requests": [freq]})
+        if out is None or 'ok' not in out[0]:
+            return dict(found=False, note='search driver failed: %s' % (err or str(out)[:200]))
+        got = [(o['text'], o['doc_freq'], o['score']) for o in out[0]['ok'].get('suggest', {}).get('s', {}).get('options', [])]
+        n += 1
+        if ref is None:
+            ref = got
+        elif got != ref:
+            return dict(found=True, cmd='%s search <<< hex(json)' % BIN,
+                        input='11 documents: "abcxy" x2, "abcxy abcaa" x7, "abcaa" x2 (both terms in 9 documents, both 2 edits from the prefix); fuzzy completion on body, prefix "abcde", max_edits 2, prefix_length 1, size 1; one segment against %d segments' % len(batches),
+                        observed='%d segments: %s' % (len(batches), got), expected='%s (the single-segment answer)' % ref)
     # fuzzy completion finds the term itself, with its document count, whatever alphabet it is written in
     words = ["éèêàù", "привет", "καλημέρα", "日本語", "hello"]
     docs = [{"_id": "w%d_%d" % (i, c), "body": w} for i, w in enumerate(words) for c in range(2)]
@@ -2180,6 +2242,14 @@ GENERATORS = {
     ('U59', 'upgrade_str'): w_column_upgrade,
     ('U59', 'str_list_push'): w_column_upgrade,
     ('U59', 'str_push'): w_column_upgrade,
+    ('U60', 'open_log'): w_history,
+    ('U61', 'cursor_value_fields'): w_pagination,
+    ('U61', 'cursor_state_fields'): w_pagination,
+    ('U62', 'to_cursor_value'): w_pagination,
+    ('U62', 'from_cursor_value'): w_pagination,
+    ('U63', 'candidate_count'): w_rescore,
+    ('U64', 'merged_ranking'): w_rescore,
+    ('U6', 'make_snippet'): w_highlight,
     ('U57', 'range_merge_arm'): w_range_layout,
     ('U57', 'date_range_merge_arm'): w_range_layout,
     ('U48', 'composite_source_values'): w_composite,
